@@ -801,7 +801,8 @@ fn count_requests(ops: &[Op]) -> usize {
 
 /// `converge` (C11, with the C09 monitor): histories of opens/changes over 2-3 documents whose
 /// texts gain and lose faults and includes, root switches, external writes to never-opened
-/// files at Sync points; the editor saves on every change, so disk == editor.
+/// files at Sync points (which may also be missing at first, disappear and come back); in two
+/// thirds of the sessions the editor saves on every change, so disk == editor.
 pub fn gen_converge(rng: &mut Rng) -> Scenario {
     let use_inc_dir = rng.chance(1, 4);
     let many = rng.chance(1, 20);
@@ -819,7 +820,11 @@ pub fn gen_converge(rng: &mut Rng) -> Scenario {
     let mut b = Build::new();
     for k in &keys {
         let spec = gen_text(rng, &mut b.vs, k, &includable(&keys, k), &cfg);
-        b.disk.insert(path_of_key(k), FileState::Text(spec.render()));
+        // now and then the never-opened include target does not exist (yet): includes of it
+        // are "not found" until something outside the editor creates it at a quiescent point
+        if *k != "e" || !rng.chance(1, 5) {
+            b.disk.insert(path_of_key(k), FileState::Text(spec.render()));
+        }
         b.specs.insert(k.to_string(), spec);
     }
     let disk0 = b.disk.clone();
@@ -847,11 +852,18 @@ pub fn gen_converge(rng: &mut Rng) -> Scenario {
             // open; the next notification makes the server re-read it
             if i + 1 < n_notifs && rng.chance(1, 3) {
                 let k = if use_inc_dir && rng.chance(1, 2) { "d" } else { "e" };
-                let spec = edit_text(rng, &mut b.vs, &b.specs[k].clone(), &includable(&keys, k), &cfg);
-                let text = spec.render();
-                b.specs.insert(k.to_string(), spec);
-                b.disk.insert(path_of_key(k), FileState::Text(text.clone()));
-                b.ops.push(Op::DiskWrite { path: path_of_key(k), text });
+                if b.disk.contains_key(&path_of_key(k)) && rng.chance(1, 4) {
+                    // the file disappears; a later write at a quiescent point re-creates it
+                    // (fault, then recovery: nothing remembered about the miss may survive)
+                    b.disk.remove(&path_of_key(k));
+                    b.ops.push(Op::DiskRemove { path: path_of_key(k) });
+                } else {
+                    let spec = edit_text(rng, &mut b.vs, &b.specs[k].clone(), &includable(&keys, k), &cfg);
+                    let text = spec.render();
+                    b.specs.insert(k.to_string(), spec);
+                    b.disk.insert(path_of_key(k), FileState::Text(text.clone()));
+                    b.ops.push(Op::DiskWrite { path: path_of_key(k), text });
+                }
             }
         }
     }
